@@ -7,7 +7,7 @@ G = None
 def register(progs, g):
     global G
     G = g
-    progs.update({'C17': prog_C17, 'C03': prog_C03, 'C16': prog_C16, 'C01': prog_C01, 'C02': prog_C02, 'C08': prog_C08, 'C09': prog_C09, 'C10': prog_C10, 'C15': prog_C15, 'C18': prog_C18, 'C07': prog_C07, 'C11': prog_C11})
+    progs.update({'C17': prog_C17, 'C03': prog_C03, 'C16': prog_C16, 'C01': prog_C01, 'C02': prog_C02, 'C08': prog_C08, 'C09': prog_C09, 'C10': prog_C10, 'C15': prog_C15, 'C18': prog_C18, 'C07': prog_C07, 'C11': prog_C11, 'C13': prog_C13})
 
 
 def plain_diff(ops_path, a_path, b_path, limit=40):
@@ -278,3 +278,18 @@ def prog_C11(ctx):
             ALG_RULE + '; C11: one key generation per (deviation kind, dealer, victim): broadcast commitments with replaced tail / all replaced / longer / shorter / a non-point, deal bit-flipped / truncated / empty / meant for somebody else, a response turned into a complaint; quick: (3,2) one pair per kind; thorough: four configurations, all or sampled pairs; plus a control run without deviation',
             cov_from_stats=alg_cov)
     ctx.assumptions += ['a deviating participant is played by rewriting its own airgapped result before its own node posts it (executeOperation binds ID, type and request payload, not the result messages)']
+
+
+def prog_C13(ctx):
+    generic(ctx, ['Dc4bcVerif.Props.C13', 'Dc4bcVerif.Props.C18'], 'nodediff', 'node', ['C13'], NODE_TRUSTED +
+            ['translator: the ordered list of calls with durable effects per function of node_service.go (Gen/Effects.lean), regenerated on every run; order_in_source / answer_order_in_source are kernel-evaluated over it',
+             'crashdiff: a real ceremony in which one node is killed before its k-th durable effect (every write to its state store, every send to the board; enumerated from a crash-free reference run), restarted with the real constructors on the same directories, and driven on; results of the airgapped machine are re-submitted, not re-computed',
+             'assumed by crash_safe, not proved: ReapplySafe of the real handler (a message already applied is refused or repeated without effect), atomicity of one LevelDB write, durability of the board file'],
+            NODE_RULE, cov_from_stats=node_cov)
+    ev = ctx.cov.get('evaluations', 0)
+    cr = monitor_only(ctx, 'crashdiff', ['C13'], 'crash_injection')
+    if cr:
+        ctx.cov['evaluations'] = ev + cr['Runs']
+        ctx.cov['distinct_nontrivial'] = ctx.cov.get('distinct_nontrivial', 0) + len(cr.get('OutcomeHist') or {})
+        ctx.cov['exhaustive'] = bool(cr.get('Exhaustive'))
+        ctx.cov['rule'] += '; crashdiff: quick = one kill per distinct (effect, handler, event) shape of a (2,2) ceremony (sampled to 45) + 6 runs with three kills; thorough = EVERY durable effect of a (2,2) and a (3,2) ceremony + 40 multi-kill runs each'
